@@ -199,9 +199,15 @@ Definition half_code (md : mods) (o : option hir) (reverse : bool) : N :=
   | None => 0
   | Some h => match simple_new md h reverse with Some _ => 1 | None => 2 end
   end.
+(* ... and the choice Greedy / NonGreedy of `Validator::new`: Greedy exactly when the reverse part has a
+   greedy repetition (`left_analysis.has_greedy_repetitions`) *)
+Definition pre_greedy (d : sdesc) : bool :=
+  match s_pre d with Some p => has_greedy p | None => false end.
 Definition kinds_ok (d : sdesc) (rev_code fwd_code : N) : bool :=
   match s_kind d with
-  | KNonGreedy => (half_code (s_mods d) (s_pre d) true =? rev_code) && (half_code (s_mods d) (s_post d) false =? fwd_code)
+  | KNonGreedy => negb (pre_greedy d)
+                  && (half_code (s_mods d) (s_pre d) true =? rev_code) && (half_code (s_mods d) (s_post d) false =? fwd_code)
+  | KGreedy => pre_greedy d
   | _ => true
   end.
 Definition with_kinds (b : bool) (t : bool * bool * N) : bool * bool * N :=
